@@ -14,19 +14,24 @@ Time is `Nat` (nanoseconds since the epoch of the base clock; any tick works).
 | `Clk.totalWithTime`   | `getTotalUnsuspendedWithTime(now)`                                    |
 | `clockAt tl t`        | the clock after all `Suspend`/`Resume` calls of the timeline `tl`     |
 |                       | whose time is `≤ t` (calls are atomic under `c.lock`)                 |
-| `loop` / `fire`       | the goroutine of `NewContextWithTimeout` (and of `NewTimer`, which    |
+| `stateAt tl pos`      | the clock after exactly the first `pos` calls of `tl`                 |
+| `loop` / `fireL`      | the goroutine of `NewContextWithTimeout` (and of `NewTimer`, which    |
 |                       | runs the same re-arm loop with `maximumSuspensionTimer` in the place  |
 |                       | of the base context's deadline and `Stop` in the place of `cancel`)   |
+| `fire`                | `fireL` when every expiry is handled at the instant it is due         |
 
-Atomicity assumption (the documented partial aspect of C11): a base timer that
-expires at `e` is handled at instant `e`, i.e. the goroutine computes
-`getTotalUnsuspendedWithTime(e)` on the clock state that results from exactly
-the `Suspend`/`Resume` calls with time `≤ e`.  `Lemmas.SusClock.totalNow_apply`
-shows that the order of same-instant calls relative to the expiry is
-irrelevant for that value, so the only tie the model has to be told about is
-cancellation versus expiry at one instant (`Cancel.pre`).  A tie between the
-base timer and the base context's deadline is resolved timer-first; both
-orders produce the same instant, error and reported duration.
+Late handling of expiries (the gap between a base timer firing and the
+goroutine acquiring `c.lock`).  A base timer armed at `a` with duration `d` is
+due at the *stamp* `T = a + d`; its channel then holds the value `T`.  The
+goroutine handles it at `T + late` (`Delivery.late`, bounded by the parameter
+`g`), when exactly `Delivery.pos` calls of the timeline have happened; it
+computes `getTotalUnsuspendedWithTime(T)` - the stale stamp - on the *current*
+clock state `stateAt tl pos`, and re-arms at the handling instant.  The
+deadline of the base context may be delivered `dlLate` after it is due.  Ties
+at one instant: cancellation vs. the next wake-up (`Cancel.pre`), deadline vs.
+a timer handled at the same instant (`dlPre`).  With `late = 0` the order of
+same-instant calls around the expiry is irrelevant
+(`Lemmas.SusClock.totalNow_apply`), which is why `fire` needs no positions.
 
 The specification side (`depthAt`, `countFree`, `unsuspended`) counts, for each
 unit interval `[τ, τ+1)`, how many suspensions cover it, independently of the
@@ -155,7 +160,46 @@ structure Result where
   instant : Nat      -- time at which `doneChannel` is closed
   reason  : Reason
   dur     : Nat      -- `ctx.unsuspendedDuration`
+  stamp   : Nat      -- stamp of the expiry that ended the loop (`NewTimer` publishes it); when a
+                     -- cancellation / the deadline ended it: min(stamp of the pending timer, instant)
+  pStamp  : Nat      -- stamp of the previously handled expiry (`t0` if none) …
+  pAt     : Nat      -- … and the instant at which it was handled (= when the pending timer was armed)
 deriving Repr, DecidableEq, Inhabited
+
+/-- When and in which clock state one base timer expiry is handled. -/
+structure Delivery where
+  late : Nat   -- handled `late` ticks after the stamp
+  pos  : Nat   -- number of `Suspend`/`Resume` calls of the timeline that have happened by then
+deriving Repr, DecidableEq
+
+inductive Out where
+  | done (r : Result)
+  | badOracle      -- a `Delivery` is later than `g` or its `pos` is not a position of the timeline at that instant
+  | outOfFuel      -- never happens (`Lemmas.SusClock.loop_total`)
+deriving Repr, DecidableEq, Inhabited
+
+/-- The clock after exactly the first `pos` calls. -/
+def stateAt (tl : List Ev) (pos : Nat) : Clk := (tl.take pos).foldl Clk.apply Clk.init
+
+/-- `pos` splits the timeline at instant `at`: earlier calls are not later than `at`,
+the remaining ones not earlier. -/
+def validPos (tl : List Ev) (pos at_ : Nat) : Bool :=
+  (tl.take pos).all (fun e => decide (e.time ≤ at_)) && (tl.drop pos).all (fun e => decide (at_ ≤ e.time))
+
+/-- How late the next expiry is handled (none recorded: on time). -/
+def nextLate : List Delivery → Nat
+  | [] => 0
+  | x :: _ => x.late
+
+/-- Is the recorded position of the next expiry a position of the timeline at the handling instant? -/
+def nextOk (tl : List Ev) (at_ : Nat) : List Delivery → Bool
+  | [] => true
+  | x :: _ => validPos tl x.pos at_
+
+/-- The clock state on which the next expiry (stamp `T`) is handled. -/
+def nextClk (tl : List Ev) (T : Nat) : List Delivery → Clk
+  | [] => clockAt tl T
+  | x :: _ => stateAt tl x.pos
 
 /-- Does the goroutine, parked in `select` until the next wake-up at `w`, see a cancellation first? -/
 def cancelBefore (cn : Option Cancel) (w : Nat) : Option Nat :=
@@ -164,37 +208,48 @@ def cancelBefore (cn : Option Cancel) (w : Nat) : Option Nat :=
   | none => none
 
 /-- The `for { … select … }` loop. `a` is the instant at which the current base
-timer was armed with duration `d`; `dl` is the base context's deadline;
-`initial`/`final` are `initialTotalUnsuspended`/`finalTotalUnsuspended`.
-One unit of fuel per loop iteration. -/
-def loop (P : Params) (tl : List Ev) (cn : Option Cancel) (initial final dl : Nat) :
-    Nat → Nat → Nat → Option Result
-  | 0, _, _ => none
-  | fuel + 1, a, d =>
-    let e := a + d
-    match cancelBefore cn (min e dl) with
+timer was armed with duration `d` (so its stamp is `a + d`); `pT` is the stamp of
+the previously handled expiry; `dlAt` is the instant at which the base context's
+deadline is delivered; `initial`/`final` are `initialTotalUnsuspended` /
+`finalTotalUnsuspended`; `dv` says when and where the successive expiries are
+handled (none left: at their stamps). One unit of fuel per loop iteration. -/
+def loop (P : Params) (g : Nat) (tl : List Ev) (cn : Option Cancel) (initial final dlAt : Nat) (dlPre : Bool) :
+    Nat → Nat → Nat → Nat → List Delivery → Out
+  | 0, _, _, _, _ => .outOfFuel
+  | fuel + 1, a, d, pT, dv =>
+    let T := a + d
+    let at_ := T + nextLate dv
+    if g < nextLate dv then .badOracle else
+    match cancelBefore cn (min at_ dlAt) with
     | some tc =>
-      -- case <-baseDoneChannel (cancelled)
-      some ⟨tc, .cancelled, (clockAt tl tc).totalNow tc - initial⟩
+      -- case <-baseDoneChannel (cancelled): getTotalUnsuspendedNow() at the instant of handling
+      .done ⟨tc, .cancelled, (clockAt tl tc).totalNow tc - initial, min T tc, pT, a⟩
     | none =>
-      if e ≤ dl then
-        -- case now := <-baseChannel
-        let cur := (clockAt tl e).totalWithTime e
-        let d' := final - cur
-        if d' < P.thr then some ⟨e, .timeout, cur - initial⟩
-        else loop P tl cn initial final dl fuel e d'
+      if at_ < dlAt ∨ (at_ = dlAt ∧ dlPre = false) then
+        -- case now := <-baseChannel, with now = T, handled at at_
+        if nextOk tl at_ dv = false then .badOracle else
+        let cur := (nextClk tl T dv).totalWithTime T
+        -- Go: d = final - cur (signed); if d < timeoutThreshold
+        if final < cur + P.thr then .done ⟨at_, .timeout, cur - initial, T, pT, a⟩
+        else loop P g tl cn initial final dlAt dlPre fuel at_ (final - cur) T dv.tail
       else
         -- case <-baseDoneChannel (deadline of the base context)
-        some ⟨dl, .capped, (clockAt tl dl).totalNow dl - initial⟩
+        .done ⟨dlAt, .capped, (clockAt tl dlAt).totalNow dlAt - initial, min T dlAt, pT, a⟩
 
 /-- Fuel that always suffices when `thr ≥ 1` (`Lemmas.SusClock.loop_total`):
-every re-arm moves the next expiry at least `thr` closer to the deadline,
-which is `maxSusp` after the first expiry. -/
-def fuelFor (P : Params) : Nat := P.maxSusp + 2
+every re-arm moves the next stamp at least `thr` closer to the delivery of the
+deadline, which is `maxSusp + dlLate` after the first stamp. -/
+def fuelFor (P : Params) (dlLate : Nat) : Nat := P.maxSusp + dlLate + 2
 
-/-- `NewContextWithTimeout(parent, d)` called at `t0` on a clock with call timeline `tl`. -/
-def fire (P : Params) (tl : List Ev) (cn : Option Cancel) (t0 d : Nat) : Option Result :=
+/-- `NewContextWithTimeout(parent, d)` called at `t0` on a clock with call timeline `tl`;
+expiries handled as `dv` says (at most `g` late), deadline delivered `dlLate` late. -/
+def fireL (P : Params) (g : Nat) (tl : List Ev) (cn : Option Cancel) (t0 d dlLate : Nat) (dlPre : Bool)
+    (dv : List Delivery) : Out :=
   let initial := (clockAt tl t0).totalNow t0
-  loop P tl cn initial (initial + d) (t0 + d + P.maxSusp) (fuelFor P) t0 d
+  loop P g tl cn initial (initial + d) (t0 + d + P.maxSusp + dlLate) dlPre (fuelFor P dlLate) t0 d t0 dv
+
+/-- Every expiry and the deadline handled at the instant they are due. -/
+def fire (P : Params) (tl : List Ev) (cn : Option Cancel) (t0 d : Nat) : Out :=
+  fireL P 0 tl cn t0 d 0 false []
 
 end BbRe.SusClock
